@@ -17,7 +17,6 @@
 package jsonproto
 
 import (
-	"bytes"
 	"encoding/binary"
 	"io"
 	"strconv"
@@ -175,9 +174,21 @@ func (j *jsonproto) Unpack(m erpc.Message) error {
 	return err
 }
 
-// escapeBody escapes the body for embedding it in a JSON string:
-// the backslash first, then the double quote (Unpack reads it back with gjson's String()).
+// escapeBody escapes the body for embedding it in a JSON string: the backslash and the double
+// quote get a backslash, every control byte (< 0x20) becomes \u00XX; all other bytes are copied.
+// Unpack reads the string back with gjson's String(), whose un-escaping stops at a raw control byte.
 func escapeBody(bodyBytes []byte) []byte {
-	bodyBytes = bytes.Replace(bodyBytes, []byte{'\\'}, []byte{'\\', '\\'}, -1)
-	return bytes.Replace(bodyBytes, []byte{'"'}, []byte{'\\', '"'}, -1)
+	const hex = "0123456789abcdef"
+	b := make([]byte, 0, len(bodyBytes)+len(bodyBytes)/4)
+	for _, c := range bodyBytes {
+		switch {
+		case c == '\\' || c == '"':
+			b = append(b, '\\', c)
+		case c < ' ':
+			b = append(b, '\\', 'u', '0', '0', hex[c>>4], hex[c&0xf])
+		default:
+			b = append(b, c)
+		}
+	}
+	return b
 }
